@@ -26,6 +26,7 @@ from dsl_compiler.src.ast import statements as S  # noqa: E402
 from dsl_compiler.src.emission.emitter import BlueprintEmitter  # noqa: E402
 from dsl_compiler.src.ir import nodes as N  # noqa: E402
 from dsl_compiler.src.layout.planner import LayoutPlanner  # noqa: E402
+from dsl_compiler.src.layout.connection_planner import ConnectionPlanner  # noqa: E402
 from dsl_compiler.src.lowering.lowerer import ASTLowerer  # noqa: E402
 from dsl_compiler.src.parsing.parser import DSLParser  # noqa: E402
 
@@ -173,6 +174,8 @@ class Capture:
         self.planner = None
         self.blueprint = None
         self.program = None
+        self.conn = None
+        self.preserved = None
 
 
 @contextlib.contextmanager
@@ -181,6 +184,13 @@ def capturing(cap: Capture):
     o_plan = LayoutPlanner.plan_layout
     o_emit = BlueprintEmitter.emit_from_plan
     o_parse = DSLParser.parse
+    o_conn = ConnectionPlanner.plan_connections
+
+    def conn(self, *a, **k):
+        cap.preserved = [(w.source_entity_id, w.sink_entity_id) for w in self.layout_plan.wire_connections]
+        r = o_conn(self, *a, **k)
+        cap.conn = self
+        return r
 
     def lower(self, program):
         r = o_lower(self, program)
@@ -211,6 +221,7 @@ def capturing(cap: Capture):
     LayoutPlanner.plan_layout = plan
     BlueprintEmitter.emit_from_plan = emit
     DSLParser.parse = parse
+    ConnectionPlanner.plan_connections = conn
     try:
         yield cap
     finally:
@@ -218,6 +229,7 @@ def capturing(cap: Capture):
         LayoutPlanner.plan_layout = o_plan
         BlueprintEmitter.emit_from_plan = o_emit
         DSLParser.parse = o_parse
+        ConnectionPlanner.plan_connections = o_conn
 
 
 ERR_CLASSES = [
@@ -303,6 +315,18 @@ def compile_capture(source: str, optimize: bool = True, power_poles: str | None 
                        "wires": [[w.source_entity_id, w.source_side, w.sink_entity_id, w.sink_side, w.wire_color, w.signal_name]
                                  for w in plan.wire_connections],
                        "power_poles": [[p.pole_id, p.pole_type, list(p.position)] for p in plan.power_poles]}
+    if cap.conn is not None:
+        cp = cap.conn
+        edges = []
+        for e in cp._circuit_edges:
+            if not e.source_entity_id:
+                continue
+            key = (e.source_entity_id, e.sink_entity_id, e.resolved_signal_name)
+            edges.append([e.source_entity_id, e.sink_entity_id, e.resolved_signal_name,
+                          cp._edge_color_map.get(key) or cp._edge_wire_colors.get(key)])
+        # wires that were planned explicitly before routing (memory modules, feedback) join both ends
+        rec["edges"] = edges
+        rec["explicit_wires"] = [list(p) for p in (cap.preserved or [])]
     if cap.blueprint is not None:
         bp = cap.blueprint
         ids = []
